@@ -32,6 +32,16 @@ type UDPAssocRec struct {
 	FromTarget []udpPktEv
 	Removed    []time.Time
 	tee        service.UDPConnMetrics
+	// fault injection / scheduling aid
+	slowRemove    time.Duration
+	removeEntered []time.Time
+}
+
+// RemoveEntered reports how many times the removal report has been entered (it may still be in progress).
+func (a *UDPAssocRec) RemoveEntered() int {
+	a.mu.Lock()
+	defer a.mu.Unlock()
+	return len(a.removeEntered)
 }
 
 func (a *UDPAssocRec) AddPacketFromClient(status string, cp, pt int64) {
@@ -50,7 +60,23 @@ func (a *UDPAssocRec) AddPacketFromTarget(status string, tp, pc int64) {
 		a.tee.AddPacketFromTarget(status, tp, pc)
 	}
 }
+
+// SetSlowRemove makes the removal report of this association take this long (a metrics sink under
+// lock contention): it widens the window between "the relay loop has ended" and "the entry is gone".
+func (a *UDPAssocRec) SetSlowRemove(d time.Duration) {
+	a.mu.Lock()
+	a.slowRemove = d
+	a.mu.Unlock()
+}
+
 func (a *UDPAssocRec) RemoveNatEntry() {
+	a.mu.Lock()
+	slow := a.slowRemove
+	a.removeEntered = append(a.removeEntered, time.Now())
+	a.mu.Unlock()
+	if slow > 0 {
+		time.Sleep(slow)
+	}
 	// the real collector first: whoever sees the removal in the record may rely on the
 	// collector having processed it (e.g. before advancing a controlled clock)
 	if a.tee != nil {
